@@ -469,13 +469,30 @@ class SpyBreaker(CircuitBreaker):
         super().__init__(**kw)
         self._rv_sink = sink
 
+    _rv_announced = "closed"  # the state the breaker's own events have announced so far (it is born closed)
+
+    def _rv_state(self):
+        st = getattr(self, "_state", None)
+        return st if st is not None else CircuitBreaker.state.fget(self)
+
+    def _rv_note(self, event):
+        st = {"circuit_opened": "open", "circuit_half_open": "half_open", "circuit_closed": "closed"}.get(event)
+        if st:
+            self._rv_announced = st
+
     def allow(self, *a, **kw):
-        before = CircuitBreaker.state.fget(self)
+        # (the spy reads the breaker's private field, not its `state` property: looking must not be what moves it)
+        before = self._rv_state()
         d = super().allow(*a, **kw)
         w = env.current()
-        if CircuitBreaker.state.fget(self) is not before and d.event is None:
-            self._rv_sink().append(("br.silent", "allow", before.value, CircuitBreaker.state.fget(self).value))
-        self._rv_sink().append(("br.allow", d.allowed, d.state.value, d.event, w.now() if w else None, CircuitBreaker.state.fget(self).value))
+        self._rv_note(d.event)
+        if self._rv_state() is not before and d.event is None:
+            self._rv_sink().append(("br.silent", "allow", before.value, self._rv_state().value))
+        elif d.event is None and d.state.value != self._rv_announced:
+            # the decision names a state no event has ever announced: the transition happened somewhere it could not be reported from
+            self._rv_sink().append(("br.silent", "a reader of `state`, or another unannounced path, before allow", self._rv_announced, d.state.value))
+            self._rv_announced = d.state.value
+        self._rv_sink().append(("br.allow", d.allowed, d.state.value, d.event, w.now() if w else None, self._rv_state().value))
         return d
 
     def _rv_interrupt(self, op):
@@ -490,11 +507,12 @@ class SpyBreaker(CircuitBreaker):
 
     def record_success(self, *a, **kw):
         self._rv_interrupt("record_success")
-        before = CircuitBreaker.state.fget(self)
+        before = self._rv_state()
         r = super().record_success(*a, **kw)
         w = env.current()
+        self._rv_note(r)
         self._rv_sink().append(("br.success", r, w.now() if w else None))
-        after = CircuitBreaker.state.fget(self)
+        after = self._rv_state()
         if after is not before and r is None:
             self._rv_sink().append(("br.silent", "record_success", before.value, after.value))
         return r
@@ -502,21 +520,22 @@ class SpyBreaker(CircuitBreaker):
     def record_failure(self, klass, *a, **kw):
         # (extra arguments a changed library may pass are handed through: the spy observes the protocol, it does not define it)
         self._rv_interrupt("record_failure")
-        before = CircuitBreaker.state.fget(self)
+        before = self._rv_state()
         r = super().record_failure(klass, *a, **kw)
         w = env.current()
+        self._rv_note(r)
         self._rv_sink().append(("br.failure", getattr(klass, "name", repr(klass)), r, w.now() if w else None))
-        after = CircuitBreaker.state.fget(self)
+        after = self._rv_state()
         if after is not before and r is None:
             self._rv_sink().append(("br.silent", "record_failure", before.value, after.value))
         return r
 
     def record_cancel(self, *a, **kw):
-        before = CircuitBreaker.state.fget(self)
+        before = self._rv_state()
         r = super().record_cancel(*a, **kw)
         w = env.current()
         self._rv_sink().append(("br.cancel", w.now() if w else None))
-        after = CircuitBreaker.state.fget(self)
+        after = self._rv_state()
         if after is not before:
             # record_cancel() has no way of announcing a transition (it returns nothing to emit): a state change in here is silent
             self._rv_sink().append(("br.silent", "record_cancel", before.value, after.value))
@@ -1335,6 +1354,12 @@ class Harness:
             self._reconfigure(envd["set"])
         rec = Rec(envd, self.entry, k)
         self.world.t += envd.get("gap", 0.0)
+        if self.breaker is not None and self.sc.get("state_reader"):
+            # somebody looks at the breaker between calls (a health endpoint, a dashboard scrape): `state` is a read
+            try:
+                self.breaker.state
+            except Exception:  # noqa: BLE001
+                pass
         rec.t_start = self.world.now()
         rec.t_start_abs = self.world.t
         self.world.call_t0 = self.world.t
